@@ -474,3 +474,46 @@ Lemma repaired_witnesses :
   /\ array_repeat 536870912 2 4611686018427387904 = Guard GMemory
   /\ string_repeat 536870912 3 6148914691236517206 = Guard GMemory.
 Proof. vm_compute. repeat split. Qed.
+
+(* ------------------------------------------------------------------ statements used by props/C07.v, props/C09.v *)
+Lemma repeat_no_panic : forall free len r,
+  0 <= len -> free <= max_alloc ->
+  is_go_panic (array_repeat free len r) = false /\ is_go_panic (string_repeat free len r) = false.
+Proof. intros. split; [ apply array_repeat_no_panic | apply string_repeat_no_panic ]; assumption. Qed.
+
+Lemma refuted_pinned_div : exists a b, int_infix_pinned 0 IDiv a b = GoPanic PDivZero.
+Proof. exists 1, 0. exact pinned_div_zero. Qed.
+Lemma refuted_pinned_mod : exists a b, int_infix_pinned 0 IMod a b = GoPanic PDivZero.
+Proof. exists 1, 0. exact pinned_mod_zero. Qed.
+Lemma refuted_pinned_shift : exists a b,
+  int_infix_pinned 0 IShl a b = GoPanic PNegShift /\ int_infix_pinned 0 IShr a b = GoPanic PNegShift.
+Proof. exists 1, (-1). split; [ exact pinned_shl_neg | exact pinned_shr_neg ]. Qed.
+Lemma refuted_pinned_slice : exists k len l r,
+  0 <= len /\ index_range_pinned k len l r = GoPanic PSliceBounds.
+Proof. exists CString, 3, (XInt (-5)), (RBound (XInt 2)). split; [ discriminate | exact pinned_slice_string ]. Qed.
+Lemma refuted_pinned_repeat : exists free len r,
+  0 <= len /\ free <= max_alloc /\ array_repeat_pinned free len r = GoPanic PMakeSlice.
+Proof.
+  exists 536870912, 2, 4611686018427387904.
+  split; [ discriminate |]. split; [ discriminate | exact pinned_array_repeat_makeslice ].
+Qed.
+Lemma refuted_pinned_string_repeat : exists free len r,
+  0 <= len /\ free <= max_alloc /\ string_repeat_pinned free len r = GoPanic PRepeatOverflow.
+Proof.
+  exists 536870912, 3, 6148914691236517206.
+  split; [ discriminate |]. split; [ discriminate | exact pinned_string_repeat_overflow ].
+Qed.
+Lemma refuted_pinned_range : exists free a b,
+  free <= max_alloc /\ int_infix_pinned free IRange a b = GoPanic PMakeSlice.
+Proof. exists 536870912, 0, 4611686018427387904. split; [ discriminate | exact pinned_range_makeslice ]. Qed.
+
+(* C09: the pinned repeat guard lets through a result 2^33 times larger than the whole budget *)
+Lemma refuted_pinned_repeat_guard : exists free len r k,
+  0 <= len /\ 0 <= free <= max_alloc /\ array_repeat_pinned free len r = Val k
+  /\ ~ (k <= small_size \/ k * object_ObjectSize < free).
+Proof.
+  exists 209715200, 3, 6148914691236517206, 18446744073709551618.
+  split; [ discriminate |]. split; [ split; discriminate |].
+  split; [ exact pinned_array_repeat_unguarded |].
+  unfold small_size. change object_ObjectSize with 16. lia.
+Qed.
